@@ -316,7 +316,7 @@ ATTR_VALUES = {
     "attr:nested-map": lambda r: r.choice([{"k": 1}, {"a": 1, "b": "x"}, {"outer": {"inner": 2}}, {"l": [1, 2]}]),
     "attr:empty-list": lambda r: [],
     "attr:float-many-digits": lambda r: r.choice([0.1234567891, 3.141592653589793, 1234567.125, 0.000123]),
-    "attr:big-int": lambda r: r.choice([2 ** 40, -(2 ** 33), 10 ** 15]),
+    "attr:big-int": lambda r: r.choice([2 ** 40, -(2 ** 33), 10 ** 15, 9007199254740993, 2 ** 63 - 1, 10 ** 20 + 1]),
     "attr:zero-false": lambda r: r.choice([0, False, 0.0]),
     "attr:empty-map": lambda r: {},
     "attr:str-empty": lambda r: "",
